@@ -602,6 +602,9 @@ class SR:
         if dlt.is_const():
             c = dlt.cval()
             return {"lt": c < 0, "le": c <= 0, "gt": c > 0, "ge": c >= 0, "eq": c == 0, "ne": c != 0}[op]
+        cs = _const_sign(dlt)
+        if cs is not None:
+            return {"lt": cs < 0, "le": cs <= 0, "gt": cs > 0, "ge": cs >= 0, "eq": cs == 0, "ne": cs != 0}[op]
         s = dlt.sign()
         if s is not None:
             known = {
@@ -805,6 +808,38 @@ class SR:
         return self._z
 
 
+def _const_sign(x: "SR"):
+    """sign of an expression built only from pi and square roots of integers, by 60-digit evaluation
+    (None if other atoms occur or the value is too close to zero to decide numerically)"""
+    ats = x.atomset()
+    if not ats:
+        return None
+    for a in ats:
+        if REG.atoms[a].kind not in ("pi", "croot"):
+            return None
+    import mpmath as mp
+    with mp.workdps(60):
+        env = {}
+        for a in ats:
+            at = REG.atoms[a]
+            env[a] = mp.pi if at.kind == "pi" else mp.sqrt(at.data)
+
+        def pe(p):
+            tot = mp.mpf(0)
+            for m, c in p.items():
+                v = mp.mpf(c.numerator) / c.denominator
+                for at, e in m:
+                    v *= env[at] ** e
+                tot += v
+            return tot
+        val = pe(x.n)
+        for k, e in x.d.items():
+            val /= pe(REG.key2poly[k]) ** e
+        if abs(val) < mp.mpf(10) ** -40:
+            return None
+        return 1 if val > 0 else -1
+
+
 def ZERO():
     if SR._zero is None:
         SR._zero = SR({}, {})
@@ -868,9 +903,59 @@ def show_den(d):
 
 # --------------------------------------------------------------------------- lifting
 
+class XFloat(float):
+    """a concrete float that remembers the exact algebraic value it approximates (result of sqrt(<number>) inside a
+    symbolic run).  Behaves as a float for concrete code; lifted into the symbolic domain it is exact."""
+
+    def __new__(cls, v, sr):
+        o = float.__new__(cls, v)
+        o.sr = sr
+        return o
+
+    def _bin(self, o, f):
+        if isinstance(o, (SR, SC, SAngle)):
+            return f(self.sr, o)
+        if isinstance(o, XFloat):
+            r = f(self.sr, o.sr)
+        elif isinstance(o, (int, float, Fraction, _np.integer, _np.floating)) and not isinstance(o, bool):
+            r = f(self.sr, lift(o))
+        else:
+            return NotImplemented
+        return XFloat(f(float(self), float(o)), r)
+
+    def __mul__(self, o):
+        return self._bin(o, lambda a, b: a * b)
+
+    def __rmul__(self, o):
+        return self._bin(o, lambda a, b: b * a)
+
+    def __truediv__(self, o):
+        return self._bin(o, lambda a, b: a / b)
+
+    def __rtruediv__(self, o):
+        return self._bin(o, lambda a, b: b / a)
+
+    def __add__(self, o):
+        return self._bin(o, lambda a, b: a + b)
+
+    def __radd__(self, o):
+        return self._bin(o, lambda a, b: b + a)
+
+    def __sub__(self, o):
+        return self._bin(o, lambda a, b: a - b)
+
+    def __rsub__(self, o):
+        return self._bin(o, lambda a, b: b - a)
+
+    def __neg__(self):
+        return XFloat(-float(self), -self.sr)
+
+
 def lift(x):
     if isinstance(x, (SR, SC, SAngle)):
         return x
+    if isinstance(x, XFloat):
+        return x.sr
     if isinstance(x, (bool, _np.bool_)):
         return SR.const(1 if x else 0)
     if isinstance(x, (int, _np.integer)):
